@@ -576,6 +576,17 @@ def do_replay(ctx, prop, pdef, path):
         sys.stderr.write('cannot interpret replay file\n')
         return 2
     cfg, tag = j.get('config'), j.get('tag', '')
+    # replay files written by the libFuzzer stages carry no stage tag: any rapidcheck stage with that configuration replays them
+    def tag_matches():
+        for stage in pdef['stages']:
+            if stage.get('kind', 'rc') == 'rc':
+                cfgs = stage['configs']
+                if isinstance(cfgs, dict):
+                    cfgs = sorted(set(cfgs['quick']) | set(cfgs['thorough']))
+                if stage.get('tag', '') == tag and cfg in cfgs:
+                    return True
+        return False
+    any_tag = not tag_matches()
     for stage in pdef['stages']:
         kind = stage.get('kind', 'rc')
         if kind == 'fuzz':
@@ -589,7 +600,7 @@ def do_replay(ctx, prop, pdef, path):
         cfgs = stage['configs']
         if isinstance(cfgs, dict):
             cfgs = sorted(set(cfgs['quick']) | set(cfgs['thorough']))
-        if stage.get('tag', '') != tag or cfg not in cfgs:
+        if cfg not in cfgs or (stage.get('tag', '') != tag and not any_tag):
             continue
         st = dict(stage); st['configs'] = [cfg]
         os.environ.update(stage.get('env', {}))
